@@ -21,7 +21,7 @@
 (*   ["div", tid, l, why, pc, Obs'] first non-conforming event (Obs' = what   *)
 (*                                the model expected, when why = "obs")    *)
 (*   ["inv", tid, l, names]       observed state after event l breaks the  *)
-(*                                named formulas (which held before it)    *)
+(*                                named formulas                           *)
 (*   ["dead", tid, l, conf, specEnabled]  the execution deadlocked         *)
 (***************************************************************************)
 EXTENDS ParallelWriter, Json, IOUtils
@@ -48,7 +48,7 @@ InQ(q, i) == \E k \in DOMAIN q : q[k] = i
 TakeAny(w, i) ==
   /\ IsWrk(w) /\ pc[w] = "idle"
   /\ LET d == DrvOf(w)
-     IN /\ pc[d] \in {"pmain", "pjoin"} /\ InQ(queue[d], i)
+     IN /\ pc[d] \in {"pmain", "pjoin"} /\ InQ(queue[d], i) /\ PoolHas(w)
         /\ task' = [task EXCEPT ![w] = i]
         /\ tstat' = [tstat EXCEPT ![i] = "running"]
         /\ queue' = [queue EXCEPT ![d] = SelectSeq(@, LAMBDA x : x # i)]
@@ -135,11 +135,10 @@ Names(o, f) ==
 
 FilesAt(k) == IF TR.ev[k].op = "Return" THEN TR.ev[k].files ELSE <<>>
 BrokenAt(k) == IF k = 0 THEN <<>> ELSE Names(ObsOf(TR.ev[k].post), FilesAt(k))
-InSeq(s, x) == \E k \in DOMAIN s : s[k] = x
-NewlyBroken == SelectSeq(BrokenAt(l - 1), LAMBDA x : ~InSeq(BrokenAt(l - 2), x))
 
+\* evaluated once per state, i.e. once per (trace, event); always TRUE, reports through PrintT
 Report ==
-  /\ (l > 1 /\ NewlyBroken # <<>>) => PrintT(ToJson(<<"inv", tid, l - 1, NewlyBroken>>))
+  /\ (l > 1 /\ BrokenAt(l - 1) # <<>>) => PrintT(ToJson(<<"inv", tid, l - 1, BrokenAt(l - 1)>>))
   /\ (l = Len(TR.ev) + 1 /\ conf) => PrintT(ToJson(<<"acc", tid>>))
   /\ (l <= Len(TR.ev) /\ TR.ev[l].op = "Deadlock") =>
         PrintT(ToJson(<<"dead", tid, l, conf, conf /\ ENABLED Step>>))
